@@ -22,6 +22,7 @@ def prog_str(program, for_model=False):
 def step_str(st):
     k = st[0]
     if k in 'WT': return "%s:%s:%s" % (k, hx(st[1]), hx(st[2]))
+    if k == 'Y': return "Y:%s:%s" % (hx(st[1]), hx(st[2]))
     if k == 'M': return "M:%s" % hx(st[1])
     if k == 'X': return "X:%s" % hx(st[1])
     if k == 'N': return "N:%s:%s" % (hx(st[1]), hx(st[2]))
